@@ -901,7 +901,14 @@ func (c *Check) weakHashVariant() (equivalent bool) {
 	}
 	out := filepath.Join(e.Scratch, "seqall_weak.tsv")
 	ses := &workerlib.Session{Mode: "seqall", Corpus: c.CorpusP, Seed: c.Seed, SeqOut: out, Variant: "weakhash"}
-	pr := runWorker(e, ses, 1, 20*time.Minute)
+	// a weakened hash may degrade a hash table into a list: bound the time this variant may cost
+	guard := 4*time.Duration(c.Timings["equivalence"]*float64(time.Second)) + 20*time.Second
+	pr := runWorker(e, ses, 1, guard)
+	if pr.TimedOut {
+		c.Knob.Rejected = append(c.Knob.Rejected, "weakhash: the variant is too slow to be useful (weakened hash degrades a table); dropped")
+		delete(e.Variants, "weakhash")
+		return false
+	}
 	if pr.Summary == nil {
 		c.Knob.Rejected = append(c.Knob.Rejected, "weakhash: variant dies: "+tail(pr.Stderr, 200))
 		delete(e.Variants, "weakhash")
